@@ -22,23 +22,46 @@
    A watermark emitted before any event is only bound by Monotone.
 
    StampAtSend = FALSE is the seeded variant "stamp when the tick is queued"
-   (used to show that Close is not vacuous).                                  *)
+   (used to show that Close is not vacuous).
+
+   Back-pressure and keying (all switched off by Pipe = 0, Keying = FALSE:
+   the sender then lags arbitrarily, which covers them abstractly; switched on
+   they make the model replayable on a real SourceRunner through gates):
+     Keying   a record read is keyed asynchronously by the user handler
+              (ReorderFetcher); its placeholder can only be sent once keyed
+              (`Keyed`). processEvents reads the next record only when the
+              previous ones are keyed and fewer than MaxAhead are unsent (the
+              reorder buffer would block it otherwise and ticks would be lost).
+     Pipe     how many sent elements may be on their way to the operator: with
+              a slow operator (HandleEventBatch held) one batch is inside the
+              operator and one is blocked in batchingOperator.Flush, then the
+              sender stalls and placeholders pile up in outputStream.
+              `Deliver` = the operator takes one more.
+     Eager    the sender goroutine sends as soon as it can (what the code does
+              when only reads, ticks, keying and the operator are scheduled).
+   Dev_AdvanceAtKeyed is the deviation "maxTimestamp advances when the handler
+   has keyed the event instead of when the event is forwarded": a tick queued
+   before the event and stamped after its keying overtakes it (Below fails).
+   Generator of adversarial schedules only; FALSE models the code.           *)
 EXTENDS Integers, Sequences, FiniteSets, TLC, Json
 
 CONSTANTS MaxTs,        \* event timestamps are 1..MaxTs (any order)
           MaxEv, MaxTick,
           Lateness,     \* allowed lateness (time units); the runner uses 0
           StampAtSend,
+          Keying, MaxAhead, Pipe, Eager,
+          Dev_AdvanceAtKeyed,
+          StopAtBad,    \* generation of witnesses: a behaviour ends where the property breaks
           MaxLen
 
-VARIABLES q, maxTs, out, nev, ntick, hist
-vars == <<q, maxTs, out, nev, ntick, hist>>
-view == <<q, maxTs, out, nev, ntick>>
+VARIABLES q, maxTs, out, infl, nev, ntick, hist
+vars == <<q, maxTs, out, infl, nev, ntick, hist>>
+view == <<q, maxTs, out, infl, nev, ntick>>
 
 ZeroT == -1000          \* Go's zero time.Time, far below every event timestamp
 Max2(a, b) == IF a > b THEN a ELSE b
 
-Init == q = <<>> /\ maxTs = ZeroT /\ out = <<>> /\ nev = 0 /\ ntick = 0 /\ hist = <<>>
+Init == q = <<>> /\ maxTs = ZeroT /\ out = <<>> /\ infl = 0 /\ nev = 0 /\ ntick = 0 /\ hist = <<>>
 
 Log(r) == hist' = Append(hist, r)
 
@@ -49,25 +72,40 @@ FMax(o, n) == IF n = 0 THEN ZeroT
 
 Stamp(m) == m - (Lateness + 1)
 
+EvIdx(qq)  == {i \in 1..Len(qq) : qq[i].ty = "ev"}
+Unkeyed(qq) == {i \in EvIdx(qq) : ~qq[i].kd}
+
 Read(ts) ==
   /\ nev < MaxEv
-  /\ q' = Append(q, [ty |-> "ev", v |-> ts]) /\ nev' = nev + 1
-  /\ UNCHANGED <<maxTs, out, ntick>>
+  /\ Keying => Unkeyed(q) = {} /\ Cardinality(EvIdx(q)) < MaxAhead
+  /\ q' = Append(q, [ty |-> "ev", v |-> ts, kd |-> ~Keying]) /\ nev' = nev + 1
+  /\ UNCHANGED <<maxTs, out, infl, ntick>>
   /\ Log([a |-> "Read", ts |-> ts])
+
+\* the user handler returns the keyed event (FetchBatch of the ReorderFetcher)
+Keyed ==
+  /\ Unkeyed(q) # {}
+  /\ LET i == CHOOSE j \in Unkeyed(q) : TRUE
+     IN /\ q' = [q EXCEPT ![i].kd = TRUE]
+        /\ maxTs' = IF Dev_AdvanceAtKeyed THEN Max2(maxTs, q[i].v) ELSE maxTs
+  /\ UNCHANGED <<out, infl, nev, ntick>>
+  /\ Log([a |-> "Keyed"])
 
 Tick ==
   /\ ntick < MaxTick
-  /\ q' = Append(q, [ty |-> "wm", v |-> Stamp(maxTs)])   \* v only used when ~StampAtSend
+  /\ q' = Append(q, [ty |-> "wm", v |-> Stamp(maxTs), kd |-> TRUE])   \* v only used when ~StampAtSend
   /\ ntick' = ntick + 1
-  /\ UNCHANGED <<maxTs, out, nev>>
+  /\ UNCHANGED <<maxTs, out, infl, nev>>
   /\ Log([a |-> "Tick"])
 
+CanSend == q # <<>> /\ Head(q).kd /\ (Pipe = 0 \/ infl < Pipe)
+
 Send ==
-  /\ q # <<>>
+  /\ CanSend
   /\ LET h == Head(q)
      IN IF h.ty = "ev"
-        THEN /\ maxTs' = Max2(maxTs, h.v)
-             /\ out' = Append(out, h)
+        THEN /\ maxTs' = IF Dev_AdvanceAtKeyed THEN maxTs ELSE Max2(maxTs, h.v)
+             /\ out' = Append(out, [ty |-> "ev", v |-> h.v])
              /\ Log([a |-> "Send", ty |-> "ev", ts |-> h.v, has |-> FALSE, fmax |-> 0, pred |-> 0])
         ELSE LET v == IF StampAtSend THEN Stamp(maxTs) ELSE h.v
                  f == FMax(out, Len(out))
@@ -76,23 +114,36 @@ Send ==
                 \* has/fmax: what the property refers to; pred: what Impl stamps
                 /\ Log([a |-> "Send", ty |-> "wm", ts |-> 0, has |-> f # ZeroT, fmax |-> f, pred |-> v])
   /\ q' = Tail(q)
+  /\ infl' = IF Pipe = 0 THEN 0 ELSE infl + 1
   /\ UNCHANGED <<nev, ntick>>
 
-Done == nev = MaxEv /\ ntick = MaxTick /\ q = <<>>
+\* the operator takes one more batch
+Deliver ==
+  /\ infl > 0 /\ infl' = infl - 1
+  /\ UNCHANGED <<q, maxTs, out, nev, ntick>>
+  /\ Log([a |-> "Deliver"])
 
-Next == /\ Len(hist) < MaxLen /\ ~Done
-        /\ \/ \E ts \in 1..MaxTs : Read(ts)
-           \/ Tick
-           \/ Send
+Done == nev = MaxEv /\ ntick = MaxTick /\ q = <<>> /\ infl = 0
 
-Spec == Init /\ [][Next]_vars
-
------------------------------------------------------------------------------
 WmIdx == {i \in 1..Len(out) : out[i].ty = "wm"}
 Monotone == \A i, j \in WmIdx : i < j => out[i].v <= out[j].v
 Below    == \A i \in WmIdx : FMax(out, i - 1) # ZeroT => out[i].v < FMax(out, i - 1)
 Close    == \A i \in WmIdx : FMax(out, i - 1) # ZeroT => out[i].v >= FMax(out, i - 1) - (Lateness + 1)
 ImplOK   == maxTs = FMax(out, Len(out))
+Bad      == ~(Monotone /\ Below /\ Close)
 
+-----------------------------------------------------------------------------
+Next == /\ Len(hist) < MaxLen /\ ~Done /\ ~(StopAtBad /\ Bad)
+        /\ IF Eager /\ CanSend THEN Send
+           ELSE \/ \E ts \in 1..MaxTs : Read(ts)
+                \/ Tick
+                \/ Keyed
+                \/ Send
+                \/ Deliver
+
+Spec == Init /\ [][Next]_vars
+
+-----------------------------------------------------------------------------
 Dump == (Done \/ Len(hist) >= MaxLen) => PrintT(<<"BEHAVIOUR", ToJson(hist)>>)
+DumpBad == Bad => PrintT(<<"BEHAVIOUR", ToJson(hist)>>)
 =============================================================================
